@@ -37,4 +37,22 @@ theorem header_total_size_default_eq (p : Profile) (hs pl : Nat) :
     evalO p [.int .usize hs, .int .usize pl] Gen.Fns.header_total_size_default = some (intRes .usize (uadd p W64 hs pl)) := by
   simp [evalO, Gen.Fns.header_total_size_default, eval, binop, arith, intRes, mkInt]
 
+/-- `ref_from_ptr`: nothing but `ref_from_slice` on the slice it forms - no additional acceptance or rejection ... -/
+theorem ref_from_ptr_eq (p : Profile) (r : V) :
+    evalO p [r] Gen.Fns.ref_from_ptr = some (.ok r) := by
+  simp [evalO, Gen.Fns.ref_from_ptr, eval]
+
+/-- ... and that slice starts at the pointer and spans exactly `hdr.total_size()` bytes (pinned on the source text) -/
+theorem ref_from_ptr_slice_is_total_size :
+    Gen.Fns.ref_from_ptr = none ∨
+      ("slice", "slice::from_raw_parts(ptr.as_ptr().cast_const().cast::<u8>(),ptr.as_ptr().cast_const().total_size())")
+        ∈ Gen.Fns.ref_from_ptr_aliases := by
+  decide
+
+/-- `ref_from_slice`: the error of `BytesRef::try_from` wins, otherwise the result of `ref_from_bytes` (`refFromSlice`) -/
+theorem ref_from_slice_eq (p : Profile) (b r : V) (e : MemErr) :
+    evalO p [.c1 "Ok" b, r] Gen.Fns.ref_from_slice = some (.ok r) ∧
+    evalO p [.c1 "Err" (encMemErr e), r] Gen.Fns.ref_from_slice = some (.ok (.c1 "Err" (encMemErr e))) := by
+  constructor <;> simp [evalO, Gen.Fns.ref_from_slice, eval, tryV, set_other]
+
 end Mb2.Fns
